@@ -87,7 +87,11 @@ def part_a(ctx):
     # primitives against the reference
     for v in list(range(0, 70000, 1)) if not ctx.quick else list(range(0, 20000)) + [2097151, 2097152, 268435455]:
         n += 1
-        if bytes(pdu.encodeLength(v)) != rc.enc_len(v):
+        try:
+            same = bytes(pdu.encodeLength(v)) == rc.enc_len(v)
+        except Exception:      # noqa
+            same = False
+        if not same:
             ctx.violation({'kind': 'bytes', 'signature': 'codec/remaining-length', 'detail': str(v), 'history': [['len', v]], 'scenario': {'name': 'enum'}})
             break
     return n + m
